@@ -1,17 +1,22 @@
-/* C19 fact 3: history independence.  out1 = A(x); an unrelated call B(y) on disjoint objects; out2 = A(x);
- * out1 == out2.  Run with --nondet-static, so any static-lifetime object that is read before being
- * written would show up as a difference.  -DFAMILY=0|1 -DA -DB */
+/* C19 fact 3: history independence with REUSED buffers.  o1 = A(x1) with x1 stored at address P; an unrelated call
+ * B(y) on disjoint objects; the SAME buffer P is overwritten with x2; o2 = A(x2 at P).  o2 must equal the
+ * specification model of A on x2: anything the library remembers across calls (a cache keyed on a pointer or a
+ * length, a scratch buffer, a lazily initialised table) shows up as a difference, and the counterexample replays
+ * natively.  Family 0: AEAD / SIV / hash on the real code (permutation = UF); family 1: HMAC / PBKDF2 (long keys)
+ * with HMAC / PRNG traffic in between, over the abstract hash.  -DFAMILY=0|1 -DHA -DHB */
 #include "verif.h"
 #include "TinyJAMBU.h"
-IN_DECL(x, 64); IN_DECL(y, 64);
+#include "tj_spec.h"
+#include "kdf_spec.h"
+IN_DECL(x, 128); IN_DECL(x2, 128); IN_DECL(y, 128);
 
 #if FAMILY == 0
 static void run_A(unsigned char *out, const unsigned char *x)
 {
     size_t n = 0;
-#if A == 0
+#if HA == 0
     tinyjambu_128_aead_encrypt(out, &n, x + 28, 5, x + 33, 3, x + 16, x);
-#elif A == 1
+#elif HA == 1
     tinyjambu_256_siv_encrypt(out, &n, x + 44, 6, x + 50, 2, x + 32, x);
 #else
     { tinyjambu_hash_state_t st; for (unsigned i = 0; i < 7; ++i) st.s[i] = 0;
@@ -22,14 +27,14 @@ static void run_B(const unsigned char *y)
 {
     unsigned char *o = verif_alloc(80);
     size_t n = 0;
-#if B == 0
+#if HB == 0
     tinyjambu_192_aead_encrypt(o, &n, y + 36, 7, y + 43, 1, y + 24, y);
-#elif B == 1
+#elif HB == 1
     (void)tinyjambu_128_siv_decrypt(o, &n, y + 28, 13, y + 41, 2, y + 16, y);
-#elif B == 2
+#elif HB == 2
     { tinyjambu_hash_state_t st; for (unsigned i = 0; i < 7; ++i) st.s[i] = 0;
       tinyjambu_hash_init(&st); tinyjambu_hash_update(&st, y, 19); tinyjambu_hash_finalize(&st, o); tinyjambu_hash_free(&st); }
-#elif B == 3
+#elif HB == 3
     tinyjambu_clean(o, 80);
 #else
     (void)tinyjambu_256_aead_decrypt(o, &n, y + 44, 12, y + 56, 0, y + 32, y);
@@ -39,18 +44,18 @@ static void run_B(const unsigned char *y)
 static size_t cb(void *ud, unsigned char *buf, size_t size) { (void)ud; for (size_t i = 0; i < size; ++i) buf[i] = IN_y[i]; return size; }
 static void run_A(unsigned char *out, const unsigned char *x)
 {
-#if A == 0
-    tinyjambu_hmac(out, x, 9, x + 9, 11);
+#if HA == 0
+    tinyjambu_hmac(out, x, 70, x + 70, 11);              /* key longer than the HMAC block */
 #else
-    tinyjambu_pbkdf2(out, 32, x, 4, x + 4, 3, 2);
+    tinyjambu_pbkdf2(out, 32, x, 66, x + 66, 3, 2);          /* password longer than the HMAC block */
 #endif
 }
 static void run_B(const unsigned char *y)
 {
     unsigned char *o = verif_alloc(80);
-#if B == 0
+#if HB == 0
     tinyjambu_hmac(o, y, 5, y + 5, 7);
-#elif B == 1
+#elif HB == 1
     { tinyjambu_hmac_state_t st; tinyjambu_hmac_init(&st, y, 70); tinyjambu_hmac_update(&st, y + 3, 9); tinyjambu_hmac_finalize(&st, y, 70, o); tinyjambu_hmac_free(&st); }
 #else
     { static tinyjambu_prng_state_t st; (void)tinyjambu_prng_init_user(&st, cb, 0, y, 3); tinyjambu_prng_generate(&st, o, 40); tinyjambu_prng_feed(&st, y, 2); tinyjambu_prng_free(&st); }
@@ -58,13 +63,35 @@ static void run_B(const unsigned char *y)
 }
 #endif
 
+static void model_A(unsigned char *out, const unsigned char *x)
+{
+#if FAMILY == 0
+#if HA == 0
+    spec_aead_encrypt(128, out, out + 5, x + 28, 5, x + 33, 3, x + 16, x);
+#elif HA == 1
+    spec_siv_mac(256, out + 6, x + 44, 6, x + 50, 2, x + 32, x);
+    spec_siv_crypt(256, out, x + 44, 6, x + 32, out + 6, x);
+#else
+    spec_hash(out, x, 21);
+#endif
+#else
+#if HA == 0
+    spec_hmac(out, x, 70, x + 70, 11);
+#else
+    spec_pbkdf2(out, 32, x, 66, x + 66, 3, 2);
+#endif
+#endif
+}
+
 VERIF_MAIN_BEGIN
-    unsigned char *x, *y, *o1 = verif_alloc(48), *o2 = verif_alloc(48);
-    IN_BYTES(x, x, 64); IN_BYTES(y, y, 64);
-    for (unsigned i = 0; i < 48; ++i) { o1[i] = 0; o2[i] = 0; }
+    unsigned char *x, *y, *o1 = verif_alloc(48), *o2 = verif_alloc(48), om[48];
+    IN_BYTES(x, x, 128); IN_BYTES(y, y, 128);
+    for (unsigned i = 0; i < 48; ++i) { o1[i] = 0; o2[i] = 0; om[i] = 0; }
     run_A(o1, x);
     run_B(y);
+    IN_FILL(x, x2, 128);                      /* same address, new contents */
     run_A(o2, x);
-    for (unsigned i = 0; i < 48; ++i) CHECK(o1[i] == o2[i], "a call's result never depends on earlier unrelated calls");
-    for (unsigned i = 0; i < 64; ++i) CHECK(x[i] == IN_x[i] && y[i] == IN_y[i], "inputs unmodified");
+    model_A(om, IN_x2);
+    for (unsigned i = 0; i < 48; ++i) CHECK(o2[i] == om[i], "a call's result depends only on its own inputs, not on earlier calls or reused buffers");
+    for (unsigned i = 0; i < 128; ++i) CHECK(x[i] == IN_x2[i] && y[i] == IN_y[i], "inputs unmodified");
 VERIF_MAIN_END
